@@ -161,6 +161,8 @@ def _make_ff(ctx, V, F, desc, monitor, attach=None):
     kw = dict(order=desc["order"], features=desc["features"], verbose=False, n_smooth=desc["n_smooth"], use_cotan=desc["cotan"], cad_correction=False)
     if attach is not None:
         kw["smooth_attach_weight"] = attach
+    if desc["order"] == 4 and desc["seed"] % 3 == 0:
+        del kw["order"]  # the documented default order (4) left to the library
     ok, ff = ctx.call("SurfaceFrameField[%s]" % desc["elements"], lambda: M.framefield.SurfaceFrameField(m, desc["elements"], **kw), monitor=monitor)
     return m, ff
 
